@@ -101,6 +101,53 @@ def fork_checkpoint_bound(rep, prog, fk, closures):
                   "a checkpoint materialising entries the child does not share is carried into the fork" % (kc - ks, kv), site=fk.loc())
 
 
+def _selection_relation(prog, f):
+    """'<' | '<=' | None and a description, for `the last element of a sorted Vec whose key REL the argument`."""
+    bodies = [prog.fns[c] for c in prog.closures_in(f.id)]
+    calls = [(f.callee_of(b["t"]) or "") for b in f.blocks if b["t"]["t"] == "call"]
+    subs1 = [rv for _, _, _, rv, _ in f.assigns() if rv["r"] == "bin" and rv["op"] in ("Sub", "SubWithOverflow") and rv["b"].get("v") == "1"]
+    adds = [rv for _, _, _, rv, _ in f.assigns() if rv["r"] == "bin" and rv["op"] in ("Add", "AddWithOverflow")]
+
+    def closure_rel():
+        rels = []
+        for g in bodies:
+            og = g.origins()
+            for (bb, kind, a, b, res, line) in comparisons(g):
+                k = kind.lower()
+                ea = any(steps_have(at, None, "worldline_tick") for at in og.of_operand(a, deep=True))
+                eb = any(steps_have(at, None, "worldline_tick") for at in og.of_operand(b, deep=True))
+                if ea == eb:
+                    continue
+                if not ea:
+                    k = {"lt": "gt", "le": "ge", "gt": "lt", "ge": "le"}.get(k, k)
+                rels.append({"lt": "<", "le": "<=", "gt": ">", "ge": ">=", "eq": "==", "ne": "!="}.get(k, k))
+        return rels
+    if any(re.search(r"::binary_search(_by_key|_by)?$", c) for c in calls):
+        # Ok(hit) and Err(insertion point) are both turned into one index by `unwrap_or_else(identity)`; the element before it
+        # (index - 1, None at 0) is the last one strictly below the key
+        cl = {}
+        for _, _, pl, rv, _ in f.assigns():
+            if rv["r"] == "agg" and rv.get("ak") == "closure" and not pl[1]:
+                cl[pl[0]] = rv["adt"]
+        ident = False
+        for b in f.blocks:
+            t_ = b["t"]
+            if t_["t"] == "call" and (f.callee_of(t_) or "").endswith("::unwrap_or_else") and len(t_["args"]) == 2:
+                a1 = op_place(t_["args"][1])
+                g = prog.fns.get(cl.get(a1[0])) if a1 is not None else None
+                ident = g is not None and not any(bb["t"]["t"] == "call" for bb in g.blocks) and not any(rv["r"] in ("bin", "un", "agg") for _, _, _, rv, _ in g.assigns())
+        minus1 = bool(subs1) or any(b["t"]["t"] == "call" and (f.callee_of(b["t"]) or "").endswith("::checked_sub") and b["t"]["args"][1].get("v") == "1" for b in f.blocks)
+        if ident and minus1 and not adds:
+            return "<", "binary search, insertion point or hit, minus one"
+        return None, "binary search with an Ok/Err treatment I do not recognise (identity=%s, minus-one=%s)" % (ident, minus1)
+    if any(re.search(r"::partition_point$|Iterator::(find|rfind|rposition|take_while|filter)$|Iterator>::(find|rfind|take_while|filter)$", c) for c in calls):
+        rels = closure_rel()
+        if len(rels) == 1 and rels[0] in ("<", "<=") and not adds:
+            return rels[0], "predicate `key %s tick`, last element of the matching prefix" % rels[0]
+        return None, "predicate relation(s) %s" % rels
+    return None, "no recognised search (calls: %s)" % [c.rsplit("::", 1)[-1] for c in calls][:6]
+
+
 def run(ctx):
     rep = ctx.report
     prog = ctx.prog("trusted")
@@ -242,6 +289,34 @@ def run(ctx):
             okb = True
     rep.check(okb, "C07.R3", "fork:entries-bounded", "entry prefix slice bound derives from fork_tick", "fork's entry slice is not bounded by fork_tick", site=fk.loc())
 
+    # ---- R3b "the nearest checkpoint BEFORE tick": every non-delegating lookup selects by  checkpoint.tick < tick  (restore
+    # compensates with target+1, seek_to's restore-or-advance decision relies on it).  The relation is read off the three
+    # search idioms; an unrecognised idiom is reported as undecided rather than guessed.
+    look = [f for f in prog.find_fns(r"::checkpoint(_state)?_before$") if f.crate == "warp_core" and "::tests" not in f.id and not f.is_closure()]
+    n_dec = 0
+    for f in sorted(look, key=lambda f: f.id):
+        if f.rec.get("_decl_only") or not f.blocks:
+            continue
+        calls = [(f.callee_of(b["t"]) or "") for b in f.blocks if b["t"]["t"] == "call"]
+        if any(re.search(r"::checkpoint(_state)?_before$", c) for c in calls):
+            continue   # delegates to another implementation, which is examined itself
+        n_dec += 1
+        rel, how = _selection_relation(prog, f)
+        rep.check(rel == "<", "C07.R3", "lookup-strictly-before:%s" % f.id.replace("warp_core::provenance_store::", ""), "selects the last checkpoint with tick < requested (%s)" % how,
+                  "%s selects the last checkpoint with tick %s requested (%s): a checkpoint stored at exactly the lookup tick is returned as `before` it, so restore(target) hands back the state "
+                  "of tick target+1 labelled target" % (f.name, rel or "??", how) if rel else
+                  "%s: cannot read the selection relation off its search (%s)" % (f.name, how), site=f.loc())
+    rep.check(n_dec >= 2, "C07.R3", "lookup-strictly-before:sites", "%d non-delegating checkpoint lookups decided" % n_dec, "only %d non-delegating checkpoint lookups found" % n_dec, site=PS)
+    rb = prog.fn(PS + "restore_replay_base")
+    lk = rb.call_sites(r"::checkpoint_state_before$")
+    okw = False
+    if lk:
+        no = near_origins(rb, rb.blocks[lk[0]]["t"]["args"][2])
+        pt = [i for i, t_ in enumerate(fn_param_tys(rb)) if "WorldlineTick" in str(t_)]
+        okw = bool(no) and all((x[0] == "param") or (x[0] == "call" and x[1].endswith("::checked_increment")) for x in no) and any(x[0] == "call" for x in no)
+    rep.check(okw, "C07.R3", "restore:looks-up-before-target-plus-one", "restore asks for the checkpoint before target+1 (i.e. at or before target)",
+              "restore_replay_base no longer asks for the checkpoint before checked_increment(target)", site=rb.loc())
+
     # ---- R5 relational bound (decides the off-by-one class; both sides normalised to  tick <= length + k)
     fork_checkpoint_bound(rep, prog, fk, filt)
 
@@ -263,6 +338,38 @@ def run(ctx):
     writers, _ = tree(prog, [ar, prog.fn(PS + "finalize_replay_metadata")])
     written = set(mod_set(writers, ws))
     meta = {"tick_history", "tx_counter", "last_snapshot", "last_materialization", "last_materialization_errors"}
+    # finalize writes each replay-derived field on EVERY path, except where the entry it derives from is absent: the only
+    # tests that may stand between the function entry and a return without the write are presence tests of a parameter.  A
+    # test of the entry's content (or of anything else) would leave whatever the starting state held — which differs between
+    # a replay from U0, from a checkpoint and an in-place advance.
+    fm = prog.fn(PS + "finalize_replay_metadata")
+    fwb = self_field_assign_blocks(fm, ws, include_mut_borrows=True)
+    absent_edges = []
+    for bi, blk in enumerate(fm.blocks):
+        t_ = blk["t"]
+        if t_["t"] != "sw":
+            continue
+        pl = op_place(t_["o"])
+        if pl is None or pl[1]:
+            continue
+        for d in fm.defs().get(pl[0], ()):
+            if d[0] == "assign" and d[4]["r"] == "disc" and "option::Option" in str(fm.locals[d[4]["p"][0]] if not d[4]["p"][1] else d[4].get("adt", "option::Option")):
+                no = near_origins(fm, {"c": d[4]["p"]})
+                if no and all(x[0] == "param" for x in no):
+                    vals = dict((val, tgt) for val, tgt in t_["v"])
+                    if "0" in vals:
+                        absent_edges.append((bi, vals["0"]))
+                    elif "1" in vals and t_.get("ow") is not None:   # `if let Some(..)`: None is the otherwise edge
+                        absent_edges.append((bi, t_["ow"]))
+    n_fin = 0
+    for fld in sorted(set(fwb) & meta):
+        n_fin += 1
+        w_ = fm.path([0], fm.return_blocks(), avoid_blocks=fwb[fld], avoid_edges=absent_edges)
+        rep.check(w_ is None, "C07.R4", "finalize:%s-written-on-every-path" % fld, "written on every path that has an entry to derive it from",
+                  "finalize_replay_metadata can return without writing WorldlineState.%s although the entry is present (%s): the field keeps what the starting state held, so replay "
+                  "from U0, from a checkpoint and in place disagree" % (fld, fm.describe_path(w_)), site=fm.loc())
+    rep.check(n_fin >= 4 and len(absent_edges) >= 1, "C07.R4", "finalize:anchors", "%d fields written by finalize, %d presence test(s) of a parameter" % (n_fin, len(absent_edges)),
+              "finalize writes only %d metadata fields / %d presence tests" % (n_fin, len(absent_edges)), site=fm.loc())
     rep.check(len(compared & meta) >= 3, "C07.R4", "validator:compares-metadata", "validator compares %s" % sorted(compared & meta),
               "checkpoint validator compares only %s" % sorted(compared & meta), site=vc.loc())
     for fld in sorted(compared & meta):
